@@ -75,7 +75,7 @@ class Module:
         self.order = []        # declaration order of names (for duplicate detection)
 
 
-TOKEN = re.compile(r'''\s*(?:(?P<str>"(?:[^"\\]|\\.)*")|(?P<const>\d+'[01xzm-]*)|(?P<int>-?\d+)|(?P<id>[\\$][^\s\[\]{}]+)|(?P<p>[\[\]{}:,])|(?P<word>[A-Za-z_][A-Za-z_0-9]*))''')
+TOKEN = re.compile(r'''\s*(?:(?P<str>"(?:[^"\\]|\\.)*")|(?P<const>\d+'[01xzm-]*)|(?P<int>-?\d+)|(?P<id>[\\$][^\s]+)|(?P<p>[\[\]{}:,])|(?P<word>[A-Za-z_][A-Za-z_0-9]*))''')
 
 
 def tokenize(line):
